@@ -76,6 +76,7 @@ def execute(trace: dict) -> Outcome:
         nontrivial=run.probes.get("block_steps_checked", 0) > 0,
         abstract=common.abstract_states(run),
         steps=run.steps_done,
+        digest=run.final_digest,
     )
 
 
